@@ -445,3 +445,139 @@ func ruleS11(c *Ctx) {
 		c.anchorFail("no comparison of Thread.Steps with Thread.maxSteps found")
 	}
 }
+
+// ---------- N18: the last element is read only from a value known to have one ----------
+
+func init() {
+	register("N18", "accesses counted from the end are guarded by the length of the same value: every s[len(s)-k] and s[:len(s)-k] with a constant k >= 1 on a string in the value, library and syntax packages is dominated by a test that establishes len(s) >= k for that very value - a test made on the value before it was trimmed, re-sliced or converted does not count, the result can be shorter - or indexes a value whose length the same function fixed; otherwise an empty (or all-blank) input panics the host with index out of range [-1]", 3, ruleN18)
+	claim("C02", "N18")
+}
+
+var n18Exceptions = map[string]string{}
+
+// n18AfterAccess: an index access s[len(s)-k'] (k' >= need) or s[c] (c >= need-1) on the same value
+// dominates the instruction - had the value been shorter, that access would have failed first, in the
+// same way.
+func n18AfterAccess(at ssa.Instruction, coll ssa.Value, need int64) bool {
+	found := false
+	eachInstr(at.Parent(), func(in ssa.Instruction) {
+		if found || in == at {
+			return
+		}
+		var x, idx ssa.Value
+		switch y := in.(type) {
+		case *ssa.Lookup:
+			x, idx = y.X, y.Index
+		case *ssa.Index:
+			x, idx = y.X, y.Index
+		default:
+			return
+		}
+		if !n9Same(x, coll) {
+			return
+		}
+		if !(in.Block().Dominates(at.Block()) && (in.Block() != at.Block() || instrIndex(in) < instrIndex(at))) {
+			return
+		}
+		if sub, ok := idx.(*ssa.BinOp); ok && sub.Op == token.SUB && n9IsLenOf(sub.X, coll) {
+			if k, isK := constInt(sub.Y); isK && k >= need {
+				found = true
+			}
+		}
+		if k, isK := constInt(idx); isK && k >= need-1 {
+			found = true
+		}
+	})
+	return found
+}
+
+// n18BuiltinName: the value is (*Builtin).Name() or the name field of a Builtin.
+func n18BuiltinName(v ssa.Value) bool {
+	switch x := v.(type) {
+	case *ssa.Call:
+		cal := x.Call.StaticCallee()
+		return cal != nil && cal.Name() == "Name" && cal.Signature.Recv() != nil && isNamed(deref(cal.Signature.Recv().Type()), "starlark", "Builtin")
+	case *ssa.UnOp:
+		if fa, ok := x.X.(*ssa.FieldAddr); ok && x.Op == token.MUL {
+			return isNamed(deref(fa.X.Type()), "starlark", "Builtin")
+		}
+	}
+	return false
+}
+
+func ruleN18(c *Ctx) {
+	n := 0
+	pl := newPairLists(c.P)
+	for _, fn := range c.P.Funcs {
+		pk := relPkg(fnPkgPath(fn))
+		if !isProdPkg(fnPkgPath(fn)) || !(pk == "starlark" || strings.HasPrefix(pk, "lib/") || pk == "starlarkstruct" || pk == "syntax" || pk == "resolve" || pk == "internal/compile") || strings.Contains(pk, "/cmd/") {
+			continue
+		}
+		ord := map[string]int{}
+		eachInstr(fn, func(in ssa.Instruction) {
+			var coll, idx ssa.Value
+			switch x := in.(type) {
+			case *ssa.IndexAddr:
+				coll, idx = x.X, x.Index
+			case *ssa.Index:
+				coll, idx = x.X, x.Index
+			case *ssa.Lookup:
+				if bt, ok := x.X.Type().Underlying().(*types.Basic); ok && bt.Info()&types.IsString != 0 {
+					coll, idx = x.X, x.Index
+				}
+			}
+			form := "[len-%d]"
+			var low int64
+			if sl, ok := in.(*ssa.Slice); ok && sl.High != nil {
+				// s[l:len(s)-k] needs len(s) >= k+l
+				// s[:len(s)-k]; a token cut at both ends (s[1:len(s)-1]) has its length from the scan that
+				// delimited it, which is not a test on the value
+				coll, idx, form = sl.X, sl.High, "[:len-%d]"
+				if sl.Low != nil {
+					if l, isK := constInt(sl.Low); !isK || l != 0 {
+						return
+					}
+				}
+			}
+			if coll == nil {
+				return
+			}
+			sub, ok := idx.(*ssa.BinOp)
+			if !ok || sub.Op != token.SUB {
+				return
+			}
+			k, isK := constInt(sub.Y)
+			if !isK || k < 1 || !n9IsLenOf(sub.X, coll) {
+				return
+			}
+			need := k + low
+			// strings (text from the script or the input); slices indexed from the end are stacks whose
+			// non-emptiness is a data-structure invariant, not a test
+			if t, ok := coll.Type().Underlying().(*types.Basic); !ok || t.Info()&types.IsString == 0 {
+				return
+			}
+			n++
+			base := fmt.Sprintf("%s: %s"+form, fnName(fn), n9Describe(coll), k)
+			ord[base]++
+			key := base
+			if ord[base] > 1 {
+				key = fmt.Sprintf("%s #%d", base, ord[base])
+			}
+			pos := c.P.Pos(in.Pos())
+			if why := n9Guard(fn, in, coll, need-1); why != "" {
+				c.ok(key, pos, why)
+			} else if n18AfterAccess(in, coll, need) {
+				c.ok(key, pos, "an access to the same value that needs as many elements is executed first on every path")
+			} else if r, ok := n18Exceptions[key]; ok {
+				c.except(key, pos, r)
+			} else if n18BuiltinName(coll) {
+				c.except(key, pos, "the name of a method built-in: fixed by the method table, whose keys are all longer")
+			} else if n18HostName(pl, coll) {
+				c.except(key, pos, "a parameter name from the name/variable list of UnpackArgs: written by the host program (a non-empty literal at every call in the module), never by a script")
+			} else {
+				c.viol(key, pos, fmt.Sprintf("%d element(s) are taken off the end without a dominating test that this very value has at least %d", k, need))
+			}
+		})
+	}
+	c.note("%d accesses counted from the end", n)
+}
